@@ -142,7 +142,7 @@ func AltData(in map[string]any) map[string]any {
 func (w *World) handler(ctx context.Context, sd *stepData, in map[string]any, group string) (string, any) {
 	key, _ := in["key"].(string)
 	b := w.behaviour(key)
-	if i := strings.IndexByte(key, '#'); i >= 0 {
+	if i := strings.LastIndexByte(key, '#'); i >= 0 {
 		group = key[:i]
 	} else {
 		group = key
@@ -199,9 +199,19 @@ func (w *World) execute(ctx context.Context, sd *stepData, in map[string]any, ke
 	}
 	// gate
 	if b.Gate != "" {
+		gateCtx := ctx
+		if b.GateTimeoutMs > 0 {
+			var cancelGate context.CancelFunc
+			gateCtx, cancelGate = context.WithTimeout(ctx, time.Duration(b.GateTimeoutMs)*time.Millisecond)
+			defer cancelGate()
+		}
 		for {
-			idx := w.WaitFor(b.Gate, cancelCh, ctx.Done())
+			idx := w.WaitFor(b.Gate, cancelCh, gateCtx.Done())
 			if idx < 0 {
+				break
+			}
+			if idx == 1 && ctx.Err() == nil {
+				w.Log("gate-timeout", key, nil)
 				break
 			}
 			if id, data, done := onStop(idx); done {
